@@ -793,11 +793,13 @@ func (ro *RedisOutput) parseAofCommand(replayQuit usync.WaitCloser, reader *bufi
 			return errors.Join(ErrCorrupted, err)
 		}
 		aofCmdCounter.Inc(ro.cfg.InputName)
-		// the "exec" of a transaction that switched to a filtered database must still reach the sender, which
-		// would otherwise stay inside that transaction forever. It carries the offset of the last command
-		// handed to the sender : the resume position must not move into the filtered region, because a
-		// restart there would not know that the source is in a filtered database
-		closesTxn := bypass && sCmd == "exec" && txnOpen
+		// transaction brackets reach the sender even while the source is in a filtered database : a withheld
+		// "exec" would leave the sender inside the transaction forever, a withheld "multi" would let the
+		// commands of a transaction that leaves the filtered database be replayed outside a transaction.
+		// There they carry the offset of the last command handed to the sender : the resume position must not
+		// move into the filtered region, because a restart there would not know that the source is in a
+		// filtered database
+		passBracket := bypass && ((sCmd == "multi" && !txnOpen) || (sCmd == "exec" && txnOpen))
 
 		// filter db, filter command, filter key
 		if sCmd != "ping" {
@@ -821,14 +823,14 @@ func (ro *RedisOutput) parseAofCommand(replayQuit usync.WaitCloser, reader *bufi
 				ignoresentinel = true
 			}
 
-			if (bypass && !closesTxn) || ignoreCmd || ignoresentinel {
+			if (bypass && !passBracket) || ignoreCmd || ignoresentinel {
 				ro.filterCounterAdd(1)
 				continue
 			}
 		}
 
 		newArgv, reject = ro.outFilter.FilterCmdKey(sCmd, argv)
-		if (bypass && !closesTxn) || reject {
+		if (bypass && !passBracket) || reject {
 			ro.filterCounterAdd(1)
 			continue
 		}
@@ -853,7 +855,7 @@ func (ro *RedisOutput) parseAofCommand(replayQuit usync.WaitCloser, reader *bufi
 			data = append(data, item)
 		}
 		endOffset := startOffset + incrOffset
-		if closesTxn {
+		if passBracket {
 			endOffset = lastSent
 		}
 		cmdExec := cmdExecution{
